@@ -73,7 +73,12 @@ type MapDataProvider[T any] struct {
 }
 
 func (m *MapDataProvider[T]) Get(key string) any {
-	return any(m.M[key])
+	v, ok := m.M[key]
+	if !ok {
+		// a missing key is absent, whatever the zero value of T is
+		return nil
+	}
+	return any(v)
 }
 
 // returns value + key used
